@@ -600,7 +600,7 @@ func (e *Env) evalCall(x *Expr) SVal {
 			switch u := e.resolveT(v.T).Underlying().(type) {
 			case *types.Map:
 				_, _, lc := t.mapComps(u)
-				return SVal{S: e.inState(func() string { return app("select", t.get(lc), v.S) }), Sort: "Int"}
+				return SVal{S: e.inState(func() string { return ite(eq(v.S, "0"), "0", app("select", t.get(lc), v.S)) }), Sort: "Int"} // a nil map has length 0
 			case *types.Array:
 				return SVal{S: fmt.Sprint(u.Len()), Sort: "Int"}
 			}
@@ -651,6 +651,20 @@ func (e *Env) evalCall(x *Expr) SVal {
 			e.errf(x, "visited(): no map range in this function")
 		}
 		return SVal{S: e.inState(func() string { return app("select", t.get(comp), k.S) }), Sort: "Bool"}
+	case "visitedcount": // visitedcount(): number of keys produced so far by the (single) map range loop of this function
+		var comp string
+		for c := range t.compSort {
+			if strings.HasPrefix(c, "R.") && strings.HasSuffix(c, ".count") {
+				if comp != "" {
+					e.errf(x, "visitedcount(): more than one map range in this function")
+				}
+				comp = c
+			}
+		}
+		if comp == "" {
+			e.errf(x, "visitedcount(): no map range in this function")
+		}
+		return SVal{S: e.inState(func() string { return t.get(comp) }), Sort: "Int"}
 	case "aload": // aload(p): current value of the sync/atomic object p points to (sequential reading)
 		v := e.eval(x.Args[0])
 		n, ok := derefNamed(e.resolveT(v.T))
